@@ -253,7 +253,7 @@ class kLeastAbsErrors(pathmodel.AbstractPathModelDAG):
                     self.G[u][v].get(self.length_attr, 1) > 0 for constraint in self.subpath_constraints for (u, v) in constraint if self.G.has_edge(u, v))):
                 for constraint in self.subpath_constraints:
                     # (only well-formed edges; malformed constraints are reported as ValueError by the base class)
-                    self.optimization_options["trusted_edges_for_safety"].update(edge for edge in constraint if isinstance(edge, tuple))
+                    self.optimization_options["trusted_edges_for_safety"].update(edge for edge in (constraint if isinstance(constraint, (list, tuple)) else []) if isinstance(edge, tuple))
 
         # Call the constructor of the parent class AbstractPathModelDAG
         super().__init__(
